@@ -3,7 +3,7 @@ import core
 from props import collector_common as cc
 
 ID = 'C05'
-EXTRACT = ['collector', 'frames', 'collector_time']
+EXTRACT = ['collector', 'frames', 'collector_time', 'collector_deferred']
 LEAN_TARGETS = ['DeepModel.Props.C05']
 AUDIT = 'DeepModel/Audit/C05.lean'
 DRIVER = 'DeepModel/Driver/C05.lean'
@@ -58,6 +58,9 @@ def gen(rng, tier):
         elif r < 0.84:
             yield cc.gen_case(rng, mock_frames=rng.randint(1, 3),
                               frame_type=rng.choice(['all_frame', 'all_frame', 'single_frame', 'no_frame']))
+        elif r < 0.86:
+            # deferred snapshots completed by the callback with a large returned / raised value after the frame used the budget
+            yield cc.gen_deferred(rng)
         elif r < 0.90:
             yield cc.gen_case(rng, nactions=2)
         elif r < 0.96:
@@ -150,6 +153,8 @@ def label(case, obs):
         return 'limits-outside/%s=%r/snap%d' % (list(rl)[0], list(rl.values())[0], len(obs.get('snapshots', [])))
     if case.get('clock'):
         return 'clock/%s/%s' % (case.get('frame_type', ''), cc.clock_label(case, obs))
+    if case.get('stream') == 'deferred':
+        return 'deferred/%s/%s/%s' % (case.get('stage'), obs.get('capture_event', 'no-event'), '+'.join(sorted(hit(case, obs)) or ['none']))
     kind = 'mock/' + case.get('frame_type', '') if case.get('mock') else ('capture' if case.get('capture') else 'frame')
     return kind + '/' + '+'.join(sorted(hit(case, obs)) or ['none'])
 
